@@ -236,3 +236,40 @@ def inverse_trig_rule(repo: Repo, prop: str, rule_id: str, module_prefixes: Tupl
                 r.ok(fn, f"{ast.unparse(c)[:70]}: argument shape not classified (not judged)", key=key)
     r.note(f"{unjudged} inverse-trigonometric call(s) with an argument of unclassified shape are not judged")
     return r
+
+
+def projected_length_rule(r: RuleRun, repo: Repo, roots: List[str]) -> None:
+    """A dot product used as a LENGTH (the distance of a point from a plane, compared with an absolute tolerance) needs a unit
+    direction: 'offset . normal' with the caller's un-normalised normal is the distance scaled by |normal|. For every dot
+    product in the given functions and the repository functions they call, one operand must be a unit vector
+    (unit_vector(...) / x / norm(x)) on every path of assignments."""
+    seen = set()
+    todo = [repo.func(q) for q in roots]
+    while todo:
+        fn = todo.pop()
+        if fn.qualname in seen:
+            continue
+        seen.add(fn.qualname)
+        b = Bounds(repo, fn)
+        k = 0
+        for n in ast.walk(fn.node):
+            if isinstance(n, ast.Call):
+                callees, _ = b.env.resolve_call(n)
+                for c in callees:
+                    if c.cls is None and c.qualname not in seen and c.module is fn.module:
+                        todo.append(c)
+                if _last(attr_chain(n.func)) == "dot":
+                    ops = list(n.args) if len(n.args) == 2 else ([n.func.value, n.args[0]] if isinstance(n.func, ast.Attribute) and len(n.args) == 1 else [])
+                    if len(ops) != 2:
+                        continue
+                    k += 1
+                    kinds = [b.kind(o) for o in ops]
+                    r.check(
+                        UNIT in kinds or DAMPED in kinds,
+                        fn,
+                        f"'{ast.unparse(n)[:60]}' projects onto a unit direction",
+                        f"{fn.qualname}: '{ast.unparse(n)[:80]}' is used as a distance but neither operand is a unit vector: with a normal of length L the 'distance' is L times the "
+                        "real one, so an absolute tolerance accepts points up to TOL/L away (or rejects points that are on the plane)",
+                        n,
+                        key=f"dot#{k}",
+                    )
